@@ -254,14 +254,14 @@ def main(run):
         exc.append((G.exc_line(ins, mid0=65533), "template", True))      # mid wraps inside the case
         exc.append((G.exc_line(ins, mid0=65535), "template", True))      # first request has mid 0
         exc.append((G.exc_line([x.replace(":7:", ":0:") for x in ins], mid0=6), "template", True))  # peer mid 0
-    for i in range(0 if replay_only else 6000 if quick else 120000):
+    for i in range(0 if replay_only else 12000 if quick else 120000):
         honest = r.random() < 0.6
         maxr = r.choice([4, 4, 4, 1, 2, 7])
         exc.append((G.exc_line(["H%d" % r.choice([1, 1, 2, 3, 4, 5, 6, 7])] + G.random_exc(r, honest, maxr), maxr=maxr,
                                mid0=r.choice([100, 65530, 65534, 65535, 0, 7, 999]),
                                tok0=r.choice([0, 0, 254, 65534])),
                     "random-honest" if honest else "random-arbitrary", honest))
-    nfate = 6 if quick else 8
+    nfate = 7 if quick else 8
     for kind in (() if replay_only else ("real", "rfc")):
         for sty in G.STYLES:
             for fates in G.exhaustive_fates(nfate, 1500):
@@ -273,7 +273,7 @@ def main(run):
                 for fates in G.exhaustive_fates(9, 1900):
                     exe.append((G.exe_line(kind, [(sty, 0, 0)], fates, seed=5, adelay=2500),
                                 "exhaustive9-" + kind, True))
-    for i in range(0 if replay_only else 5000 if quick else 150000):
+    for i in range(0 if replay_only else 10000 if quick else 150000):
         kind = r.choice(["real", "real", "rfc"])
         nreq = r.choice([1, 2, 2, 3, 4])
         reqs = [(r.choice(G.STYLES), r.choice([1, 1, 1, 0]), r.choice([0, 0, 5, 400, 1800])) for _ in range(nreq)]
